@@ -31,6 +31,9 @@ type cgConfig struct {
 	Strict     bool `json:"strict_last_slash"`
 	Cap        int  `json:"capacity"`
 	OptStyle   int  `json:"option_style"` // how caching and its capacity are configured (4 equivalent ways)
+	// Late: the last route of the table is registered by an extra action of the alphabet ("register"), enabled once, at any
+	// point of the history; both routers (caching and twin) are judged against the table registered so far
+	Late bool `json:"late_registration,omitempty"`
 }
 
 var cgTables = [][]refmodel.RouteDef{
@@ -44,6 +47,8 @@ var cgTables = [][]refmodel.RouteDef{
 	{{Path: "/a/{f:.+}", Methods: []string{"GET", "PUT"}}, {Path: "/{all}", Methods: []string{"HEAD", "POST"}}},
 	// a single-method route registered before a multi-method route that matches the same paths
 	{{Path: "/a/{n:[a-z]+}", Methods: []string{"POST"}}, {Path: "/a/{x}", Methods: []string{"GET", "POST", "DELETE"}}, {Path: "/{x}/b", Methods: []string{"DELETE", "HEAD"}}},
+	// the last route outranks the first for the paths both match (it matters when it is registered late)
+	{{Path: "/{x}/{y}", Methods: []string{"GET", "DELETE"}}, {Path: "/a/{x}", Methods: []string{"GET", "POST"}}},
 }
 
 var cgRequests = []cgReq{
@@ -79,6 +84,12 @@ func cgOpts(c cgConfig, caching bool) []func(*rux.Router) {
 
 // cgBuild builds the router of a configuration; option style 3 = New(EnableCaching) then WithOptions(MaxNumCaches(n), rest...)
 func cgBuild(defs []refmodel.RouteDef, c cgConfig, caching bool, rec *hitRec) (*rux.Router, any) {
+	return cgBuildN(defs, len(defs), c, caching, rec)
+}
+
+// cgBuildN registers only the first n routes; cgLate adds the rest
+func cgBuildN(all []refmodel.RouteDef, n int, c cgConfig, caching bool, rec *hitRec) (*rux.Router, any) {
+	defs := all[:n]
 	if caching && c.OptStyle == 3 {
 		c2 := c
 		c2.OptStyle = 0
@@ -117,6 +128,11 @@ func cgObserve(r *rux.Router, rec *hitRec, q cgReq) string {
 	return sb.String()
 }
 
+func cgLate(r *rux.Router, all []refmodel.RouteDef, n int, rec *hitRec) any {
+	_, pv := registerIntoAt(r, all, nil, true, rec, n)
+	return pv
+}
+
 func cgSnap(r *rux.Router) (canon string, keys []string, vals []*rux.Route, ll, ml int) {
 	c := r.VerifCache()
 	if c == nil {
@@ -150,40 +166,91 @@ func cacheGraphRun(c cgConfig, reqs []cgReq, mode string, fullDepth int, st *fw.
 		}
 	}
 	defs := cgTables[c.Table]
-	tb, err := refmodel.NewTable(defs, refmodel.Opts{NotAllowed: c.NotAllowed, Fallback: c.Fallback, Strict: c.Strict})
-	if err != nil {
-		panic(err)
+	nEarly := len(defs)
+	if c.Late {
+		nEarly--
+	}
+	const actReg = -1 // the "register the last route" action
+	// phase 0 = before the late registration (or no late registration at all), phase 1 = after it
+	var tbs [2]*refmodel.Table
+	for ph, n := range []int{nEarly, len(defs)} {
+		t, err := refmodel.NewTable(defs[:n], refmodel.Opts{NotAllowed: c.NotAllowed, Fallback: c.Fallback, Strict: c.Strict})
+		if err != nil {
+			panic(err)
+		}
+		tbs[ph] = t
 	}
 	cfg := fmt.Sprintf("table [%s] notAllowed=%v fallback=%v strict=%v capacity=%d(option style %d)", defsString(defs), c.NotAllowed, c.Fallback, c.Strict, c.Cap, c.OptStyle)
-	// the non-caching twin is stateless: one expected observation per request
-	recT := &hitRec{}
-	twin, pv := cgBuild(defs, c, false, recT)
-	if pv != nil {
-		add("register:panic", fmt.Sprintf("%s: registration panicked: %v", cfg, pv))
-		return viols
+	if c.Late {
+		cfg += "; the last route is registered by the action 'register' of the history"
 	}
-	exp := make([]string, len(reqs))
-	for i, q := range reqs {
-		exp[i] = cgObserve(twin, recT, q)
-		// a second observation must be identical (the twin has no memory)
-		if again := cgObserve(twin, recT, q); again != exp[i] {
-			add("twin:unstable", fmt.Sprintf("%s: non-caching router answers %s %s differently the second time: %s vs %s", cfg, q.M, q.P, exp[i], again))
+	// the non-caching twin is stateless: one expected observation per request and phase
+	var exp [2][]string
+	for ph := 0; ph < 2; ph++ {
+		recT := &hitRec{}
+		twin, pv := cgBuildN(defs, nEarly, c, false, recT)
+		if pv == nil && ph == 1 {
+			pv = cgLate(twin, defs, nEarly, recT)
 		}
+		if pv != nil {
+			add("register:panic", fmt.Sprintf("%s: registration panicked: %v", cfg, pv))
+			return viols
+		}
+		exp[ph] = make([]string, len(reqs))
+		for i, q := range reqs {
+			exp[ph][i] = cgObserve(twin, recT, q)
+			// a second observation must be identical (the twin has no memory)
+			if again := cgObserve(twin, recT, q); again != exp[ph][i] {
+				add("twin:unstable", fmt.Sprintf("%s: non-caching router answers %s %s differently the second time: %s vs %s", cfg, q.M, q.P, exp[ph][i], again))
+			}
+		}
+	}
+	phaseOf := func(h []int) int {
+		for _, a := range h {
+			if a == actReg {
+				return 1
+			}
+		}
+		return 0
 	}
 	build := func(h []int) (*rux.Router, *hitRec) {
 		rec := &hitRec{}
-		r, pv := cgBuild(defs, c, true, rec)
+		r, pv := cgBuildN(defs, nEarly, c, true, rec)
 		if pv != nil {
 			panic(pv)
 		}
 		for _, qi := range h {
+			if qi == actReg {
+				if pv := cgLate(r, defs, nEarly, rec); pv != nil {
+					panic(pv)
+				}
+				continue
+			}
 			cgObserve(r, rec, reqs[qi])
 		}
 		return r, rec
 	}
+	snap := func(r *rux.Router, ph int) (string, []string, []*rux.Route, int, int) {
+		s, k, v, ll, ml := cgSnap(r)
+		if c.Late {
+			s = fmt.Sprintf("registered=%d ", ph) + s
+		}
+		return s, k, v, ll, ml
+	}
+	histOf := func(h []int) string {
+		var p []string
+		for _, i := range h {
+			if i == actReg {
+				p = append(p, fmt.Sprintf("register route #%d", nEarly))
+			} else {
+				p = append(p, reqs[i].M+" "+reqs[i].P)
+			}
+		}
+		return strings.Join(p, ", ")
+	}
 	seen := map[string]bool{}
 	r0, _ := build(nil)
-	s0, _, _, _, _ := cgSnap(r0)
+	s0, _, _, _, _ := snap(r0, 0)
 	seen[s0] = true
 	st.States++
 	frontier := [][]int{{}}
@@ -198,19 +265,34 @@ func cacheGraphRun(c cgConfig, reqs []cgReq, mode string, fullDepth int, st *fw.
 		}
 		h := frontier[0]
 		frontier = frontier[1:]
+		ph := phaseOf(h)
+		tb := tbs[ph]
+		if c.Late && ph == 0 {
+			// the registration itself: a transition to the state reached on the larger table
+			r, _ := build(append(append([]int(nil), h...), actReg))
+			post, _, _, ll, ml := snap(r, 1)
+			st.Transitions++
+			st.Inc("late_registrations", 1)
+			if ll != ml || ll > c.Cap {
+				add("cache:invariant", fmt.Sprintf("%s; history [%s] then register: cache list length %d, map size %d, capacity %d", cfg, histOf(h), ll, ml, c.Cap))
+			}
+			if !seen[post] || len(h)+1 <= fullDepth {
+				if !seen[post] {
+					seen[post] = true
+					st.States++
+				}
+				frontier = append(frontier, append(append([]int(nil), h...), actReg))
+			}
+		}
 		for qi, q := range reqs {
 			r, rec := build(h)
-			pre, preKeys, _, _, _ := cgSnap(r)
+			pre, preKeys, _, _, _ := snap(r, ph)
 			got := cgObserve(r, rec, q)
-			post, keys, vals, ll, ml := cgSnap(r)
+			post, keys, vals, ll, ml := snap(r, ph)
 			st.Transitions++
 			st.Evals++
 			hs := func() string {
-				hh := make([]cgReq, 0, len(h))
-				for _, i := range h {
-					hh = append(hh, reqs[i])
-				}
-				return fmt.Sprintf("%s; history [%s]; cache before {%s}; request %s %s", cfg, histStr(hh), pre, q.M, q.P)
+				return fmt.Sprintf("%s; history [%s]; cache before {%s}; request %s %s", cfg, histOf(h), pre, q.M, q.P)
 			}
 			res := tb.Resolve(q.M, q.P)
 			dynamic := (res.Kind == "route" || res.Kind == "head-get") && !tb.Pats[res.Route].Static
@@ -232,14 +314,14 @@ func cacheGraphRun(c cgConfig, reqs []cgReq, mode string, fullDepth int, st *fw.
 				st.Inc("evictions", 1)
 			}
 			if mode == "C07" {
-				if got != exp[qi] {
+				if got != exp[ph][qi] {
 					sig := "transparency:" + res.Kind
 					if hit {
 						sig += ":hit"
 					} else {
 						sig += ":miss"
 					}
-					add(sig, fmt.Sprintf("%s: caching router observes %s; the same router without caching observes %s", hs(), got, exp[qi]))
+					add(sig, fmt.Sprintf("%s: caching router observes %s; the same router without caching observes %s", hs(), got, exp[ph][qi]))
 				}
 				if ll != ml || ll > c.Cap {
 					add("cache:invariant", fmt.Sprintf("%s: cache list length %d, map size %d, capacity %d", hs(), ll, ml, c.Cap))
@@ -286,11 +368,7 @@ func cacheGraphRun(c cgConfig, reqs []cgReq, mode string, fullDepth int, st *fw.
 				frontier = append(frontier, h2)
 				st.Max("max_depth", int64(len(h2)))
 				if st.WantSample() && len(h2) >= 3 {
-					hh := []string{}
-					for _, i := range h2 {
-						hh = append(hh, reqs[i].M+" "+reqs[i].P)
-					}
-					st.Sample(map[string]any{"config": cfg, "history": hh, "cache_state_reached": post})
+					st.Sample(map[string]any{"config": cfg, "history": histOf(h2), "cache_state_reached": post})
 				}
 			}
 		}
@@ -314,6 +392,10 @@ func cgGen(tier string, emit func(cgConfig, bool)) {
 			for c := 0; c <= maxCap; c++ {
 				emit(cgConfig{Table: t, NotAllowed: o&1 != 0, Fallback: o&2 != 0, Strict: o&4 != 0, Cap: c, OptStyle: (t + o + c) % 4}, tier == "thorough")
 			}
+			// the same graph with the registration of the last route as one more action of the alphabet
+			for _, c := range map[string][]int{"quick": {2}, "thorough": {1, 3}}[tier] {
+				emit(cgConfig{Table: t, NotAllowed: o&1 != 0, Fallback: o&2 != 0, Strict: o&4 != 0, Cap: c, OptStyle: (t + o + c) % 4, Late: true}, tier == "thorough")
+			}
 		}
 	}
 }
@@ -336,8 +418,8 @@ var c07Spec = fw.Spec[c07Case]{
 	ID:         "C07",
 	Level:      "model_checking",
 	StateGraph: true,
-	Rule: "explicit-state search to fix-point per configuration (9 route tables x {HandleMethodNotAllowed} x {HandleFallbackRoute} x {StrictLastSlash} x capacities 0..3(4)): state = cache content in recency order with route and params per entry (verif hook); " +
-		"all histories of length <=2 (thorough 3) without state merging, then every reachable state x every request of the alphabet (13 / 16 requests: hits, misses, evictions, HEAD->GET, 405 probes, fallback, 404) executed on the real caching router via Match and ServeHTTP and compared with the non-caching twin; non-trivial = newly reached distinct cache state",
+	Rule: "explicit-state search to fix-point per configuration (10 route tables x {HandleMethodNotAllowed} x {HandleFallbackRoute} x {StrictLastSlash} x capacities 0..3(4)): state = cache content in recency order with route and params per entry (verif hook); " +
+		"all histories of length <=2 (thorough 3) without state merging, then every reachable state x every request of the alphabet (13 / 16 requests: hits, misses, evictions, HEAD->GET, 405 probes, fallback, 404) executed on the real caching router via Match and ServeHTTP and compared with the non-caching twin; for capacity 2 (thorough 1 and 3) the graph is explored again with the registration of the table's last route as one more action, enabled once at any point; non-trivial = newly reached distinct cache state",
 	Assume: []string{
 		"canonical state = cache content only: tables and options are frozen after registration and contexts are reset per request (C10)",
 		"successor = replay of the shortest history on a fresh router plus one request",
